@@ -3,6 +3,10 @@ package main
 import (
 	"bytes"
 	"fmt"
+	"os"
+	"os/exec"
+	"path/filepath"
+	"regexp"
 	"runtime/debug"
 	"strings"
 
@@ -193,7 +197,7 @@ func init() {
 	run.Register(&run.Prop{
 		ID: "C06", Level: "exploration",
 		Rule: func(tier string) string {
-			return "case = one hostile byte stream (<=1 MiB) read to its end with Parser.Next() over a scripted reader, in a child process under RLIMIT_AS=4GiB: every length/count prefix of 10 base streams replaced by each of 22 boundary digit strings; bomb headers at top level, inside a command and nested; truncation at every offset (whole and 1-byte delivery); every single byte; every string <=3 over the structural alphabet; nesting to 262000 levels; 200000-wide arrays; then seeded random stacked mutations of valid streams and a near-valid grammar. Oracle: no panic (recover), no process death (exit status), no array with absent elements, termination. distinct = hash of stream+chunking; non-trivial = the stream is not a single valid value"
+			return "case = one hostile byte stream (<=1 MiB) read to its end with Parser.Next() over a scripted reader, in a child process under RLIMIT_AS=4GiB: every length/count prefix of 10 base streams replaced by each of 22 boundary digit strings; bomb headers at top level, inside a command and nested; truncation at every offset (whole and 1-byte delivery); every single byte; every string <=3 over the structural alphabet; nesting to 262000 levels; 200000-wide arrays; then seeded random stacked mutations of valid streams and a near-valid grammar; finally Go's native coverage-guided fuzzer (go test -fuzz, corpus seeded with 14 streams, budget counted in executions: 300000 quick / 30000000 thorough) with the same oracle. Oracle: no panic (recover), no process death (exit status), no array with absent elements, termination. distinct = hash of stream+chunking; non-trivial = the stream is not a single valid value"
 		},
 		Assumptions: []string{"'never aborts the process' is decided for inputs <=1 MiB under a 4 GiB address-space limit"},
 		Setup: func(tier string, seed uint64) int {
@@ -211,5 +215,55 @@ func init() {
 		Chunk:         1000,
 		MinConclusive: 1000,
 		ASLimit:       4 << 30,
+		Finish:        c06fuzz,
 	})
+}
+
+// c06fuzz is the coverage-guided leg: Go's native fuzzer over Parser.Next() with the same oracle,
+// under an execution-count budget (not a duration). A crasher is moved out of the source tree and
+// becomes the replay witness.
+func c06fuzz(a *run.Agg) {
+	execs := map[string]string{"quick": "300000x", "thorough": "30000000x"}[a.Tier]
+	cmd := exec.Command("go", "test", "-tags", "verif", "-run=^$", "-fuzz=FuzzParser", "-fuzztime="+execs, "./fuzz/")
+	cmd.Dir = filepath.Join(run.Root, "harness")
+	cmd.Env = append(os.Environ(), "GOFLAGS=-mod=mod", "GOPROXY=off", "GOSUMDB=off", "GOTOOLCHAIN=local")
+	out, err := cmd.CombinedOutput()
+	text := string(out)
+	a.Extra["fuzz_budget_execs"] = execs
+	if m := regexp.MustCompile(`execs: (\d+)`).FindAllStringSubmatch(text, -1); len(m) > 0 {
+		a.Extra["fuzz_execs"] = m[len(m)-1][1]
+	}
+	if m := regexp.MustCompile(`new interesting: (\d+) \(total: (\d+)\)`).FindAllStringSubmatch(text, -1); len(m) > 0 {
+		a.Extra["fuzz_new_interesting_inputs"] = m[len(m)-1][1]
+		a.Extra["fuzz_corpus_total"] = m[len(m)-1][2]
+	}
+	if err == nil {
+		return
+	}
+	if !strings.Contains(text, "--- FAIL") && !strings.Contains(text, "Failing input") {
+		a.Extra["self_check_failed"] = "the native fuzzer could not run: " + clipS(text, 400)
+		return
+	}
+	// move crashers out of the source tree
+	witness := ""
+	dir := filepath.Join(run.Root, "harness", "fuzz", "testdata", "fuzz", "FuzzParser")
+	if es, e := os.ReadDir(dir); e == nil {
+		keep := filepath.Join(run.WorkDir("C06"), "fuzz-crashers")
+		os.MkdirAll(keep, 0o755)
+		for _, f := range es {
+			b, _ := os.ReadFile(filepath.Join(dir, f.Name()))
+			witness = string(b)
+			os.Rename(filepath.Join(dir, f.Name()), filepath.Join(keep, f.Name()))
+		}
+		os.RemoveAll(filepath.Join(run.Root, "harness", "fuzz", "testdata"))
+	}
+	why := "fuzz target failed"
+	for _, l := range strings.Split(text, "\n") {
+		l = strings.TrimSpace(l)
+		if strings.HasPrefix(l, "panic:") || strings.Contains(l, "absent element") || strings.Contains(l, "does not terminate") || strings.HasPrefix(l, "fatal error:") {
+			why = l
+			break
+		}
+	}
+	a.AddViolation(-1, run.Violation{Sig: "C06:fuzz:" + strings.SplitN(why, "[", 2)[0], Clause: "Parser.Next() is total (coverage-guided fuzzing)", Detail: clipS(text, 3000), Case: map[string]any{"go_fuzz_corpus_entry": witness}})
 }
